@@ -12,9 +12,11 @@
                     the pad replacement (Pad flag or PEIM type) through
                     uefi.CreatePadFile (size and erase-polarity checks), and the
                     Undo closure chain: one closure per removed file, holding
-                    the volume it belongs to and the copy of that volume's file
-                    list taken just before the removal, and re-pointing Undo to
-                    the previous closure when called
+                    the volume it belongs to (here: its address in the tree)
+                    and the copy of that volume's file list taken just before
+                    the removal, and re-pointing Undo to the previous closure
+                    when called; the descent f.ApplyChildren(v) into the
+                    nested volumes of the remaining files
      dxecleaner.go  DXECleaner.Run: candidate list, rounds, per-candidate
                     remove / Test / report-or-undo, the four-way branch on the
                     (bool, error) result of Test
@@ -23,8 +25,13 @@
    code of the pinned tree, [fixed] the code with the three patches applied.
 
    State.  An image is a list of volumes, a volume the list of its files; a
-   file is (identity, GUID, type, size).  [f_id] stands for the *uefi.File
-   pointer: Remove.Visit compares pointers, and a pad file made by
+   file is (identity, GUID, type, size, UI name, nested volumes): [f_kids] are
+   the volumes held by the file's FIRMWARE_VOLUME_IMAGE sections, to any depth.
+   Find.Visit lists a matching file and still descends into it (pre-order over
+   all depths); Remove.Visit edits a volume's list and then descends into the
+   files that are left — a deleted file takes its nested volumes with it, they
+   are not visited, and come back untouched when the deletion is undone.
+   [f_id] stands for the *uefi.File pointer: Remove.Visit compares pointers, and a pad file made by
    CreatePadFile is a new object (fresh id from the counter [nx]).  GUIDs are
    numbers (the 16 bytes read big-endian).
 
@@ -51,22 +58,46 @@
    candidate list) answer false on every section, so [f_ui] never influences
    the cleaner — which is what the correspondence check tests on trees whose
    UI names spell candidates' GUIDs.
-   Not modelled: nested volumes (a volume inside a section of a file), other
-   section kinds, several UI sections in one file, Remove's RemoveDxes mode,
+   The tree is a value: a closure's saved list holds the files as they were
+   when it was saved.  Go holds pointers, but nested volumes are only edited
+   after their parent's list has been saved and closures are called last-in
+   first-out, so when a saved list is put back its files' nested volumes have
+   already been put back and both views agree (the executor checks object
+   identity at every depth).
+   Not modelled: section kinds other than UI and FV image (e.g. an FV image
+   inside a compressed section is the same to the visitors: one more level of
+   ApplyChildren), several UI sections in one file, a UI section placed after
+   an FV-image section (Find would then list nested matches before the file), Remove's RemoveDxes mode,
    the printf output, parseBlackList and the CLI registration, the bytes of
    the pad file (only its header fields GUID/type/size), Save/Assemble of the
    tree shown to the test. *)
 From Fiano Require Import Base.Bytes Gen.Consts.
 Open Scope Z_scope.
 
-Record file := mkFile {
+Inductive file := mkFile {
   f_id : Z; f_guid : Z; f_type : Z; f_size : Z;
-  f_ui : option Z   (* Some g: the file has a user-interface section whose name spells,
+  f_ui : option Z;  (* Some g: the file has a user-interface section whose name spells,
                        case-insensitively, the string of GUID g; None: no UI section
                        or an ordinary name *)
+  f_kids : list (list file)   (* nested volumes (FV-image sections), in section order *)
 }.
 Definition volume := list file.
 Definition image := list volume.
+
+Definition with_kids (f : file) (k : list volume) : file :=
+  mkFile (f_id f) (f_guid f) (f_type f) (f_size f) (f_ui f) k.
+
+(* pre-order: a file, then the files of its nested volumes *)
+Fixpoint flat_file (f : file) : list file :=
+  f :: concat (map (fun v => concat (map flat_file v)) (f_kids f)).
+Definition flat_vol (v : volume) : list file := concat (map flat_file v).
+Definition flat (img : image) : list file := concat (map flat_vol img).
+
+(* nesting depth of a list of volumes: 0 without files, 1 for flat volumes *)
+Fixpoint fdepth (f : file) : nat :=
+  S (fold_right (fun v m => Nat.max (fold_right (fun x m' => Nat.max (fdepth x) m') O v) m) O (f_kids f)).
+Definition vdepth (vs : list volume) : nat :=
+  fold_right (fun v m => Nat.max (fold_right (fun x m' => Nat.max (fdepth x) m') O v) m) O vs.
 
 (* which repairs are applied *)
 Record variant := mkVar {
@@ -112,6 +143,12 @@ Fixpoint set_nth {A} (n : nat) (x : A) (l : list A) : list A :=
   | y :: r => match n with O => x :: r | S k => y :: set_nth k x r end
   end.
 
+Fixpoint map_nth {A} (n : nat) (g : A -> A) (l : list A) : list A :=
+  match l with
+  | [] => []
+  | y :: r => match n with O => g y :: r | S k => y :: map_nth k g r end
+  end.
+
 Fixpoint remove_nth {A} (n : nat) (l : list A) : list A :=
   match l with
   | [] => []
@@ -122,8 +159,8 @@ Definition memz (x : Z) (l : list Z) : bool := existsb (Z.eqb x) l.
 
 (* ---- find.go ---- *)
 
-(* Find.Run over the tree: the matching files in tree order *)
-Definition find (p : file -> bool) (img : image) : list file := filter p (concat img).
+(* Find.Run over the tree: the matching files at every depth, in pre-order *)
+Definition find (p : file -> bool) (img : image) : list file := filter p (flat img).
 
 Definition guid_pred (g : Z) (f : file) : bool := f_guid f =? g.   (* FindFileGUIDPredicate *)
 Definition type_pred (t : Z) (f : file) : bool := f_type f =? t.   (* FindFileTypePredicate *)
@@ -138,35 +175,52 @@ Definition file_pred (g : Z) (f : file) : bool :=
 (* ---- uefi.CreatePadFile: header fields only ---- *)
 Definition create_pad (pol size nx : Z) : outcome file :=
   if size <? file_header_min_length then Err E_PADSIZE
-  else if pol =? 255 then Ok (mkFile nx ff_guid fv_filetype_pad size None)
-  else if pol =? 0 then Ok (mkFile nx zero_guid fv_filetype_pad size None)
+  else if pol =? 255 then Ok (mkFile nx ff_guid fv_filetype_pad size None [])
+  else if pol =? 0 then Ok (mkFile nx zero_guid fv_filetype_pad size None [])
   else Err E_PADPOL.
 
 (* ---- remove.go ---- *)
 
-(* the Undo closure chain: head = the closure Undo points to; each closure
-   holds (volume, originalList) and its [prev] is the tail; [] = nil *)
-Definition undo := list (nat * list file).
+(* The Undo closure chain: head = the closure Undo points to; each closure
+   holds (volume, originalList) and its [prev] is the tail; [] = nil.
+   The volume (a *FirmwareVolume) is given by its address: [vi] is the vi-th
+   volume of the list at hand; vi :: fi :: a is address a among the nested
+   volumes of file fi of volume vi. *)
+Definition addr := list nat.
+Definition undo := list (addr * list file).
+
+(* f.Files = originalList for the volume at the address *)
+Fixpoint set_at (a : addr) (o : list file) (vs : list volume) {struct a} : list volume :=
+  match a with
+  | [] => vs
+  | vi :: a1 =>
+    map_nth vi (fun fs =>
+      match a1 with
+      | [] => o
+      | fi :: a2 => map_nth fi (fun f => with_kids f (set_at a2 o (f_kids f))) fs
+      end) vs
+  end.
 
 (* remove.Undo() *)
 Definition call_undo (img : image) (u : undo) : outcome (image * undo) :=
   match u with
   | [] => Panic P_NILUNDO
-  | (vi, orig) :: prev => Ok (set_nth vi orig img, prev)
+  | (a, orig) :: prev => Ok (set_at a orig img, prev)
   end.
 
 (* for remove.Undo != nil { remove.Undo() } *)
 Fixpoint unwind (img : image) (u : undo) : image :=
   match u with
   | [] => img
-  | (vi, orig) :: prev => unwind (set_nth vi orig img) prev
+  | (a, orig) :: prev => unwind (set_at a orig img) prev
   end.
 
 (* for _, m := range v.Matches { if f.Files[i] == m { ... } }
-   at a fixed i of the enclosing loop; returns the (possibly decremented) i *)
-Fixpoint inner (var : variant) (pol : Z) (pad : bool) (vi : nat) (ms : list Z)
-               (i : Z) (fs : list file) (u : undo) (nx : Z)
-  : outcome (Z * list file * undo * Z) :=
+   at a fixed i of the enclosing loop; returns the (possibly decremented) i.
+   [u] collects the saved lists of this volume, latest first. *)
+Fixpoint inner (var : variant) (pol : Z) (pad : bool) (ms : list Z)
+               (i : Z) (fs : list file) (u : list (list file)) (nx : Z)
+  : outcome (Z * list file * list (list file) * Z) :=
   match ms with
   | [] => Ok (i, fs, u, nx)
   | m :: ms' =>
@@ -180,44 +234,81 @@ Fixpoint inner (var : variant) (pol : Z) (pad : bool) (vi : nat) (ms : list Z)
                  do a <- of_opt P_SLICE (slc 0 i fs);
                  do b <- of_opt P_SLICE (slc (i + 1) (zlen fs) fs);
                  Ok ((if v_index var then i - 1 else i), a ++ b, nx));
-      let u' := (vi, orig) :: u in
+      let u' := orig :: u in
       if v_index var then Ok (fst (fst r), snd (fst r), u', snd r)      (* break *)
-      else inner var pol pad vi ms' (fst (fst r)) (snd (fst r)) u' (snd r)
-    else inner var pol pad vi ms' i fs u nx
+      else inner var pol pad ms' (fst (fst r)) (snd (fst r)) u' (snd r)
+    else inner var pol pad ms' i fs u nx
   end.
 
 (* for i := 0; i < len(f.Files); i++ *)
-Fixpoint outer (fuel : nat) (var : variant) (pol : Z) (pad : bool) (vi : nat) (ms : list Z)
-               (i : Z) (fs : list file) (u : undo) (nx : Z)
-  : outcome (list file * undo * Z) :=
+Fixpoint outer (fuel : nat) (var : variant) (pol : Z) (pad : bool) (ms : list Z)
+               (i : Z) (fs : list file) (u : list (list file)) (nx : Z)
+  : outcome (list file * list (list file) * Z) :=
   match fuel with
   | O => Fuel
   | S k =>
     if i <? zlen fs then
-      do r <- inner var pol pad vi ms i fs u nx;
-      outer k var pol pad vi ms (fst (fst (fst r)) + 1) (snd (fst (fst r))) (snd (fst r)) (snd r)
+      do r <- inner var pol pad ms i fs u nx;
+      outer k var pol pad ms (fst (fst (fst r)) + 1) (snd (fst (fst r))) (snd (fst r)) (snd r)
     else Ok (fs, u, nx)
   end.
 
-(* Remove.Visit on one volume *)
-Definition visit_vol var pol pad vi ms (fs : list file) (u : undo) (nx : Z) :=
-  outer (S (length fs)) var pol pad vi ms 0 fs u nx.
+(* the two loops of Remove.Visit on one volume's list *)
+Definition visit_loop var pol pad ms (fs : list file) (nx : Z) :=
+  outer (S (length fs)) var pol pad ms 0 fs [] nx.
 
-(* f.Apply(v) on the root: the volumes in order; an error aborts the walk *)
-Fixpoint visit_vols var pol pad (ms : list Z) (vi : nat) (vs : image) (u : undo) (nx : Z)
-  : outcome (image * undo * Z) :=
+Definition pfx (n : nat) (c : addr * list file) : addr * list file := (n :: fst c, snd c).
+
+(* f.ApplyChildren(v) of a volume: each file, its sections, their volumes.
+   [rec] visits a list of nested volumes; what it pushed is addressed below
+   file fi.  Later pushes are nearer the head. *)
+Fixpoint visit_files (rec : list volume -> Z -> outcome (list volume * undo * Z))
+                     (fi : nat) (fl : list file) (nx : Z) : outcome (list file * undo * Z) :=
+  match fl with
+  | [] => Ok ([], [], nx)
+  | f :: r =>
+    do a <- rec (f_kids f) nx;
+    do b <- visit_files rec (S fi) r (snd a);
+    Ok (with_kids f (fst (fst a)) :: fst (fst b),
+        snd (fst b) ++ map (pfx fi) (snd (fst a)), snd b)
+  end.
+
+(* Remove.Visit on one volume: the loops, then the descent into what is left.
+   Addresses are relative to the volume: [] is the volume itself *)
+Definition visit_one (rec : list volume -> Z -> outcome (list volume * undo * Z))
+                     var pol pad ms (fs : list file) (nx : Z) : outcome (list file * undo * Z) :=
+  do a <- visit_loop var pol pad ms fs nx;
+  do k <- visit_files rec 0 (fst (fst a)) (snd a);
+  Ok (fst (fst k), snd (fst k) ++ map (fun o => ([], o)) (snd (fst a)), snd k).
+
+(* ApplyChildren over a list of volumes, in order; an error aborts the walk *)
+Fixpoint visit_seq (rec : list volume -> Z -> outcome (list volume * undo * Z))
+                   var pol pad (ms : list Z) (vi : nat) (vs : list volume) (nx : Z)
+  : outcome (list volume * undo * Z) :=
   match vs with
-  | [] => Ok ([], u, nx)
+  | [] => Ok ([], [], nx)
   | fs :: r =>
-    do a <- visit_vol var pol pad vi ms fs u nx;
-    do b <- visit_vols var pol pad ms (S vi) r (snd (fst a)) (snd a);
-    Ok (fst (fst a) :: fst (fst b), snd (fst b), snd b)
+    do a <- visit_one rec var pol pad ms fs nx;
+    do b <- visit_seq rec var pol pad ms (S vi) r (snd a);
+    Ok (fst (fst a) :: fst (fst b), snd (fst b) ++ map (pfx vi) (snd (fst a)), snd b)
+  end.
+
+(* the whole descent; [d] bounds the nesting depth still to be entered *)
+Fixpoint visit_vols (d : nat) var pol pad (ms : list Z) (vs : list volume) (nx : Z) {struct d}
+  : outcome (list volume * undo * Z) :=
+  match vs with
+  | [] => Ok ([], [], nx)
+  | _ =>
+    match d with
+    | O => Fuel
+    | S d' => visit_seq (visit_vols d' var pol pad ms) var pol pad ms 0 vs nx
+    end
   end.
 
 (* Remove{Predicate: p, Pad: pad}.Run(f) with a fresh visitor (Undo == nil) *)
 Definition remove_run var pol pad (p : file -> bool) (img : image) (nx : Z)
   : outcome (image * undo * Z) :=
-  visit_vols var pol pad (map f_id (find p img)) 0 img [] nx.
+  visit_vols (S (vdepth img)) var pol pad (map f_id (find p img)) img nx.
 
 (* ---- dxecleaner.go ---- *)
 
@@ -294,11 +385,19 @@ Definition dxe_clean (var : variant) (orc : oracle) (pol : Z) (pred : file -> bo
 
 (* ---- specification-side definitions used by the theorems ---- *)
 
-(* the image without every file whose GUID is g / is in gs; order preserved *)
+(* the tree without the files that [keepf] rejects, at every depth (a rejected
+   file goes with everything nested in it); order preserved.  [keepf] looks at
+   header fields only. *)
+Fixpoint prune_file (keepf : file -> bool) (f : file) : file :=
+  with_kids f (map (fun v => filter keepf (map (prune_file keepf) v)) (f_kids f)).
+Definition prune (keepf : file -> bool) (img : image) : image :=
+  map (fun v => filter keepf (map (prune_file keepf) v)) img.
+
+(* the image without every file whose GUID is g / is in gs *)
 Definition remove_guid (g : Z) (img : image) : image :=
-  map (filter (fun f => negb (f_guid f =? g))) img.
+  prune (fun f => negb (f_guid f =? g)) img.
 Definition minus_guids (gs : list Z) (img : image) : image :=
-  map (filter (fun f => negb (memz (f_guid f) gs))) img.
+  prune (fun f => negb (memz (f_guid f) gs)) img.
 
 Definition guid_of (e : entry) : Z := fst (fst e).
 Definition shown_of (e : entry) : image := snd (fst e).
@@ -313,14 +412,28 @@ Fixpoint nodupz (l : list Z) : bool :=
   end.
 
 (* file objects are distinct, and no file that would be padded instead of
-   deleted (PEIM) carries the GUID of a candidate *)
+   deleted (PEIM) carries the GUID of a candidate — at every depth *)
 Definition wf_image (pred : file -> bool) (img : image) : bool :=
-  nodupz (map f_id (concat img)) &&
+  nodupz (map f_id (flat img)) &&
   forallb (fun f => negb ((f_type f =? fv_filetype_peim) && memz (f_guid f) (cand_guids pred img)))
-          (concat img).
+          (flat img).
 
 (* a tester that boots iff every GUID of [req] is present *)
-Definition present (g : Z) (img : image) : bool := existsb (fun f => f_guid f =? g) (concat img).
+Definition present (g : Z) (img : image) : bool := existsb (fun f => f_guid f =? g) (flat img).
+
+(* the files that stay whatever is done to files with a GUID in [bad]: those
+   that are not below (or equal to) such a file *)
+Fixpoint safe_file (bad : Z -> bool) (f : file) : list file :=
+  if bad (f_guid f) then []
+  else f :: concat (map (fun v => concat (map (safe_file bad) v)) (f_kids f)).
+Definition safe_flat (bad : Z -> bool) (img : image) : list file :=
+  concat (map (fun v => concat (map (safe_file bad) v)) img).
+Definition safe_present (bad : Z -> bool) (g : Z) (img : image) : bool :=
+  existsb (fun f => f_guid f =? g) (safe_flat bad img).
+(* every required GUID has an occurrence that is not nested in a candidate
+   outside the required set (removing such candidates cannot take it away) *)
+Definition req_safe (pred : file -> bool) (req : list Z) (img : image) : bool :=
+  forallb (fun r => safe_present (fun g => memz g (cand_guids pred img) && negb (memz g req)) r img) req.
 Definition boots_iff (req : list Z) : oracle :=
   fun _ img => (forallb (fun g => present g img) req, 0).
 
